@@ -312,7 +312,6 @@ func (h *hookCtl) handle(name string, args ...interface{}) {
 		}
 	}
 	h.mu.Lock()
-	h.counts[name]++
 	if h.logEvents {
 		h.events = append(h.events, fmt.Sprint(append([]interface{}{name}, args...)...))
 	}
@@ -333,7 +332,6 @@ func (h *hookCtl) handle(name string, args ...interface{}) {
 		}
 	}
 	extra := h.extra
-	h.cond.Broadcast()
 	h.mu.Unlock()
 	if park != nil {
 		<-park
@@ -341,6 +339,12 @@ func (h *hookCtl) handle(name string, args ...interface{}) {
 	if extra != nil {
 		extra(name, args...)
 	}
+	// the event is counted only after the check-specific handler ran (e.g. after the directory image was copied):
+	// whoever waits for the count must not race with the handler
+	h.mu.Lock()
+	h.counts[name]++
+	h.cond.Broadcast()
+	h.mu.Unlock()
 }
 
 func (h *hookCtl) count(name string) int {
